@@ -241,6 +241,8 @@ def run():
     limit_stream(ck, info, names, I)
     # ------------------------------------------------------------------ value-level clause model vs the hook of translate_select_pipeline
     clauses_stream(ck, info, names, cases)
+    # ------------------------------------------------------------------ translate_cid: qualified or bare, vs the hook
+    cid_stream(ck, cases)
 
     ck.proof_broken_violation(found_input=bool([v for v in ck.violations if not v[2]]))
     ck.assumptions += ["tables t,u,v,`my table` have the columns of c07_gen.SCHEMA (closed schema for the model, CREATE TABLE for SQLite)",
@@ -514,3 +516,91 @@ def clauses_stream(ck, info, names, cases):
                 {"kind": "clauses", "src": rq["src"], "target": rq["target"], "model": list(v), "compiler": exp, "tags": [], "sql": "", "msg": ""}, lambda _c: None)
     ck.coverage["clauses_calls_distinct"] = len(keys)
     ck.coverage["clauses_agree"] = agree
+
+
+CID_DIRECTED = [
+    "from t\njoin u (t.id == u.id)\nselect {t.a, u.d, z = t.b + 1}\nsort {u.d}\ntake 3\nfilter z > 1",
+    "from t\nselect {a, b}\nsort b\ntake 2", "from x = t\njoin y = t (x.id == y.g)\nselect {x.a, ya = y.a}\nsort {y.a}",
+    "from t\njoin u (t.g == u.g)\ntake 5\nfilter u.id > 1", "from t\ngroup {g} (aggregate {n = count this})\nsort {-n}",
+    "from t\nderive {k = a * 2}\nsort k\nselect {b}\ntake 3", "from t\njoin u (==id)\njoin v (t.id == v.id)\nselect {t.a, u.d, v.s}\nsort {v.s, t.a}",
+    "let x = (from t | select {id, a} | sort a)\nfrom x\njoin u (x.id == u.id)\nselect {x.a, u.d}", "from t\nfilter a > 1\nderive {z = s\"ABS({a} - {b})\"}\nsort z",
+    "from `my table`\nfilter `a b` > 1\nsort `order`\ntake 2", "from t\ngroup {g} (sort a | take 1)", "from t\nselect {a}\nappend (from u | select {a})\nsort a",
+]
+
+
+def cid_stream(ck, cases, targets=("postgres", "sqlite", "mssql", "snowflake")):
+    """Tie B for Model/TranslateCid.v: every real call of translate_cid on a relation column or post-projection (hook
+    verif:translate_cid, hooks/translate-cid.diff) vs the model; the FROM list of the SELECT being assembled is taken from
+    the enclosing verif:select_pipeline_in, so `omit_ident_prefix = (count_tables == 1)` is part of the comparison"""
+    pool = [c["src"] for c in cases if c["fam"] in ("core", "core_nosel", "join", "let", "sort_dropped", "window", "setops", "quoted", "distinct", "take")]
+    ck.rng.shuffle(pool)
+    srcs = list(dict.fromkeys(CID_DIRECTED + pool[: ck.n(70, 1500)]))
+    reqs = [{"src": src, "target": "sql." + d, "want": [], "msg_prefix": "verif:"} for src in srcs for d in targets]
+    ans = harness("log", reqs)
+    I = {}
+
+    def tid(t):
+        return I.setdefault(t, len(I) + 1)
+    calls = {}
+    seen = False
+    okc = 0
+    for rq, a in zip(reqs, ans):
+        if "ok" in a:
+            okc += 1
+        stack = []
+        for e in a.get("entries", []):
+            m = e.get("Message") or ""
+            if m.startswith("verif:select_pipeline_in "):
+                d = json.loads(m[len("verif:select_pipeline_in "):])
+                stack.append([tr["rel"].get("alias") for tr in d["pipeline"] if tr["kind"] in ("From", "Join")])
+            elif m.startswith("verif:select_pipeline_out "):
+                if stack:
+                    stack.pop()
+            elif m.startswith("verif:translate_cid "):
+                seen = True
+                d = json.loads(m[len("verif:translate_cid "):])
+                i = d["in"]
+                fr = stack[-1] if stack else None
+                key = json.dumps([i["pre"], i["omit"], i["decl"], i["wildcard"], i["inst_name"], i["column"], None if fr is None else len(fr), d["out"]])
+                calls.setdefault(key, (i, d["out"], fr, rq))
+    ck.coverage["cid_compiles"] = okc
+    if okc and not seen:
+        ck.violation("no verif:translate_cid line in any of %d successful compiles: the hook of translate_cid (hooks/translate-cid.diff) is missing" % okc,
+                     {"kind": "cid-hook-missing"}, no_input=True)
+        return
+    keys = sorted(calls)
+    header = ("From Coq Require Import List NArith.\nFrom PV Require Import Model.Checked Model.SqlAst Model.TranslateCid.\nImport ListNotations.\nLocal Open Scope N_scope.\n")
+    exprs = []
+    for k in keys:
+        i, out, fr, rq = calls[k]
+        omit = "(omit_prefix %d%%nat)" % len(fr) if fr is not None else ("true" if i["omit"] else "false")
+        col = "CStar" if i["wildcard"] else "(CName %d)" % tid(i["column"])
+        inst = "None" if i["inst_name"] is None else "(Some %d)" % tid(i["inst_name"])
+        exprs.append("cid_code (translate_cid %s %s %s %s %s)" % ("true" if i["pre"] else "false", omit, "DRelCol" if i["decl"] == "relcol" else "DCompute", inst, col))
+    try:
+        vals = coq_eval(header, exprs) if exprs else []
+    except RuntimeError as ex:
+        ck.violation("the translate_cid model cannot be evaluated in Coq", {"kind": "coq-eval", "error": str(ex)[-800:]}, no_input=True)
+        return
+    names_of = {v: t for t, v in I.items()}
+    agree = 0
+    for k, v in zip(keys, vals):
+        i, out, fr, rq = calls[k]
+        ck.count("cid", k)
+        ck.stat("cid", ("pre" if i["pre"] else "post") + ":" + i["decl"] + (":star" if i["wildcard"] else ""))
+        ck.stat("cid", "frame:%s" % ("none" if fr is None else min(len(fr), 3)))
+        if fr is not None:
+            ck.stat("cid", "instance-in-frame:%s" % (i["inst_name"] in fr))
+        tag, q, c = v
+        got = None
+        if tag == 1:
+            got = ([names_of[q]] if q else []) + (["*"] if c == 0 else [names_of[c]])
+        if got == out:
+            agree += 1
+            ck.stat("cid", "form:" + ("qualified" if len(out) == 2 else "bare"))
+        else:
+            ck.disagreement("translate_cid differs from Model/TranslateCid.v on %s [%s]: in %s frame %s, model %s, compiler %s" % (
+                rq["src"].replace("\n", " | ")[:200], rq["target"], i, fr, got if tag == 1 else ["Fail", "", "Panic"][tag], out),
+                {"kind": "cid", "src": rq["src"], "target": rq["target"], "in": i, "frame": fr, "model": list(v), "compiler": out, "tags": [], "sql": "", "msg": ""}, lambda _c: None)
+    ck.coverage["cid_calls_distinct"] = len(keys)
+    ck.coverage["cid_agree"] = agree
